@@ -2,6 +2,7 @@
 pub mod de;
 pub mod ser;
 pub mod rec;
+pub mod strmodel;
 
 /// `false` natively, `true` under verification (stubbed by harnesses that need to know whether
 /// `-Z stubbing` models are in force; concrete playback runs the real functions).
